@@ -1,6 +1,7 @@
 """C10 — map-matched positions lie on a real edge within the search radius
 (tracklib/algo/mapping.py mapOnNetwork / __mapOnNetwork / __distToNode / __projOnTrack, the construction path
-core/network.py addNode / addEdge + computeAbsCurv on the edge geometries, the spatial index through the model of C08).
+core/network.py addNode / addEdge + computeAbsCurv on the edge geometries, the spatial index through the model of C08;
+networks and tracks with altitudes through Model/MapMatchZ: every function above on ENUCoords(E, N, U), Track.length()).
 Two models are run on every case: the core (Model/MapMatch: candidate loop, flag state, inference column) on the real
 candidate lists in their real order with the real decoded indices, and the composed one (Model/MapMatchNet: network
 construction, index, search unit, candidates, front end) which is only told which edge the real decoder chose."""
@@ -69,6 +70,13 @@ class P(Prop):
         (M, "TV.C10.matched_on_built_network", "on a network built by addEdge from computeAbsCurv-made edges with distinct ids, a matched state names the number n of an edge handed over and lies on THAT geometry, with along-edge distances adding up to its length"),
         (M, "TV.C10.viterbi_inference", "with Viterbi.decode (C09: decode_succeeds, decoded_valid) over any cost tables sized like the candidate lists: no exception, hmm_inference[k] is one of STATES[k]"),
         (M, "TV.C10.near_edge_is_candidate", "with the index of C08 (neighborhood_complete): an edge with a point within d of the observation is a candidate whenever the unit computed by __mapOnNetwork is groundDistanceToUnits(d)"),
+        (M, "TV.C10.abs_curv_planimetric", "with altitudes: computeAbsCurv (ds = distance2DTo) on a 3D geometry is computeAbsCurv on its planimetric vertices; abs_curv[i] is the PLANIMETRIC length up to vertex i, whatever the altitudes"),
+        (M, "TV.C10.weight_is_3d_length", "the edge made by NetworkReader / the builders: computed abs_curv column, weight = Track.length() = the 3D length, which is >= the planimetric length the matched distances add up to, with equality on a level edge"),
+        (M, "TV.C10.states_flag_or_matched_3d", "with altitudes: STATES[i] is the flag state with the observation's own 3D position, or matched states: U = 0, on the planimetric geometry of an existing edge, d < radius, planimetric along-edge distances adding up to the planimetric edge length"),
+        (M, "TV.C10.altitudes_irrelevant", "forgetting the altitudes commutes with building the network (same numbers, abs_curv columns, spatial index, exceptions) and with preparing STATES (same candidates, points, distances, exceptions)"),
+        (M, "TV.C10.front_end_sound_3d", "mapOnNetwork on a network and tracks with altitudes: every processed track keeps its observations (3D positions), gets the three columns, every hmm_inference entry is one of STATES[k]: the flag state or matched as in states_flag_or_matched_3d"),
+        (M, "TV.C10.matched_on_built_network_3d", "a network built by addEdge from LINESTRING(x y z)-made edges stores the n-th geometry under number n WITH its altitudes; a matched state lies on the planimetric vertices of THAT geometry, distances adding up to its planimetric length"),
+        (M, "TV.C10.near_edge_is_candidate_3d", "near_edge_is_candidate with altitudes: the index reads x, y only"),
     ]
     partial = []
     open_statements = ["completeness of the candidates in terms of the search radius (no edge within the radius is missed) is not claimed by the property and does not hold in general: "
@@ -78,11 +86,19 @@ class P(Prop):
                        "exceptions are outside the theorems (every statement is about a call that returns): ZeroDivisionError of the projection on a vertical segment (finding D16, class "
                        "vertical-segment-zerodiv), UnboundLocalError on a candidate edge all of whose vertices coincide (class zero-length-edge-unbound), AnalyticalFeatureError on a track "
                        "without observation",
-                       "IEEE rounding: the theorems are over an ordered field with an exact square root; the float behaviour is sampled by the transfer check (tolerance 1e-9 relative)"]
+                       "IEEE rounding: the theorems are over an ordered field with an exact square root; the float behaviour is sampled by the transfer check (tolerance 1e-9 relative)",
+                       "which length 'the edge length' is: the code measures planimetrically (abs_curv = sums of distance2DTo, assigned point with U = 0, __distToNode with distance2DTo): the "
+                       "theorems of Part IV state d0 + d1 = planimetric length of the stored geometry; Track.length() / Edge.weight is the 3D length (weight_is_3d_length) and differs on every "
+                       "edge that is not level. The oracle accepts either reading, consistently (sum AND abscissa planimetric, or sum AND abscissa 3D). Outside the statement, noted: the "
+                       "transition model (__tst_log -> Network.distanceBtwPts) subtracts the planimetric abscissa from the 3D Track.length() of the edge",
+                       "coordinates other than ENUCoords (GeoCoords / ECEFCoords networks: distance2DTo goes through a local ENU frame) are not modelled"]
     modelled = ("algo/mapping.py mapOnNetwork (bare track / collection / iterable, gps_noise, transition_cost, search_radius, debug, verbose), __mapOnNetwork (obs_noise column, search unit, "
                 "neighborhood call, candidate loop: projection on EDGES[getEdgeId(elem)].geom, d < search_radius, __distToNode from abs_curv; flag state; hmm_inference from the decoded "
                 "indices; created feature columns; positions untouched for mode 1), __distToNode, __projOnTrack; core/network.py Node, Edge, Network.addNode / addEdge (node table, EDGES, "
-                "__idx_edges, registration in an attached index), getEdgeId, getNumberOfEdges, __getitem__, bbox; algo/cinematics.py computeAbsCurv (ds + INTEGRATOR) on edge geometries; "
+                "__idx_edges, registration in an attached index), getEdgeId, getNumberOfEdges, __getitem__, bbox; algo/cinematics.py computeAbsCurv (ds + INTEGRATOR) on edge geometries; ON DATA WITH ALTITUDES (Model/MapMatchZ: the same "
+                "functions on ENUCoords(E, N, U)): ENUCoords.distance2DTo / distanceTo, algo/analytics.py ds, Track.length() (the edge weight of NetworkReader without weight column and of the "
+                "builders), Track.getX() / getY() + ENUCoords(xproj, yproj, 0) of __projOnTrack (C20's projOnTrack3), the flag state holding the observation's own position, the index reading "
+                "x, y only, io/network_reader.py wktLineStringToObs keeping the third number of LINESTRING(x y z, ...) (exercised through the reader, not translated); "
                 "core/spatial_index.py through Model/Grid (C08): constructor on the network, addFeature, neighborhood(coord, unit). Parameter of the model (taken from the real run): the "
                 "HMM-decoded states (given to the composed model as edge numbers, to the core model as indices); the core model is also run on the real candidate lists in their real order")
     rule = ("grid-like and random networks on an integer lattice and on two-decimal coordinates (oblique / horizontal / vertical, 2..4-vertex edges, arbitrary edge and node ids); REAL "
@@ -95,8 +111,11 @@ class P(Prop):
             "exist), user features with those names, radius and noise changing between calls, transition_cost / debug / verbose / positional arguments, for 30 % of the sessions the module "
             "was used before on another (one-edge) network; the oracle is applied to every "
             "track of every call through its own hmm_inference column and measures on Edge.geom as read back from the network after the call; the network state after construction "
-            "(geometries, abs_curv columns, node table, edge ends, grid) and per track STATES (as sets, and in the real order), hmm_inference, feature names, obs_noise column and "
-            "positions are compared with the model's. non-trivial = at least one observation within the radius of an edge")
+            "(geometries with altitudes, abs_curv columns, edge weights (3D cases), node table with altitudes, edge ends, grid) and per track STATES (as sets, and in the real order), hmm_inference, feature names, obs_noise column and "
+            "positions (3D) are compared with the model's. ALTITUDES: 40 % of the cases of every stream (and the enumerated scope enum-z) "
+            "carry altitudes — hill (one altitude per planimetric position, lattice or two-decimal values 0..30), plateau (one non-zero altitude everywhere), mixed (some edges 2D: "
+            "LINESTRING(x y, ...) next to LINESTRING(x y z, ...) in one file), obs (2D network, observations with altitudes), node tables with altitudes, observations with altitudes half "
+            "of the time; such cases run on Model/MapMatchZ (commands net3 / match3), the others on the 2D models. non-trivial = at least one observation within the radius of an edge")
     trusted = ["the decoded states (HMM.estimate) are an input of the model, captured from the real call (class attribute wrapped for the duration of a case, no source hook); the candidate "
                "lists the decoder receives for each track are read through the HMM's own state function at the entry of HMM.estimate; the real candidate order (SpatialIndex.neighborhood "
                "returns list(set)) is captured by wrapping the instance attribute and fed to the core model, the composed model computes the candidates itself (compared as sets)"]
